@@ -69,9 +69,10 @@ def canon_text(n):
 
 
 class Eval:
-    def __init__(self, F, fn, inline=True, leaf=None, keep=(), node=None):
+    def __init__(self, F, fn, inline=True, leaf=None, keep=(), node=None, upto=None):
         self.F = F
         self.fn = fn
+        self.upto = upto
         skip = (lambda c: H.last(c) in keep) if keep else ()
         body = node if node is not None else H.body_of(fn)
         self.body = H.inline_helpers(F, body, depth=3, max_size=120, skip=skip) if (inline and F is not None) else body
@@ -134,6 +135,13 @@ class Eval:
     def ev(self, n, loc):
         n0 = n
         k = n.get("k")
+        if self.upto is not None and n is self.upto:
+            self.upto_hit = True
+            saved, self.upto = self.upto, None
+            try:
+                raise _Return(self.ev(n, loc))
+            finally:
+                self.upto = saved
         if k in ("ref",) or (k == "un" and n.get("op") == "*"):
             return self.ev(n["e"], loc)
         if k == "lit":
@@ -146,6 +154,8 @@ class Eval:
                 sk = s.get("k")
                 if sk == "let":
                     pat = s.get("pat", {})
+                    if self.upto is not None and s.get("init") is not None and any(y is self.upto for y in H.walk(s["init"])):
+                        self.ev(s["init"], loc)   # the node asked for sits in this initialiser: evaluate it now
                     if pat.get("k") == "bind" and s.get("init") is not None and not s.get("els"):
                         loc[pat["id"]] = (s["init"], dict(loc))
                     elif pat.get("k") == "wild":
@@ -286,6 +296,15 @@ class Eval:
             if "::" not in path:
                 raise _Unsupported("pattern path")
             enum, v = path.rsplit("::", 1)
+            # a scrutinee that is itself computed by a conditional (or a local bound to one): its value decides
+            sc = H.strip(scrut)
+            lid = H.local_id(sc)
+            if lid in loc:
+                sc = H.strip(loc[lid][0])
+            if sc.get("k") in ("match", "if", "block") and not H.is_try(sc) and not pat.get("pats") and not pat.get("fields"):
+                val = self.ev(scrut, loc)
+                if isinstance(val, tuple) and val[0] == "val" and re.fullmatch(r"[A-Za-z_][\w:]*", val[1] or "") and "::" in val[1]:
+                    return val[1].rsplit("::", 1)[1] == v, {}
             sub = pat.get("pats") or []
             binds = {}
             for i, sp in enumerate(sub):
@@ -329,15 +348,16 @@ class _Lazy(dict):
         return self.ev_.atom(k)
 
 
-def table_expr(F, node, inline=True, limit=4096, keep=()):
-    """decision table of one expression / block (a closure body, the condition of an `if`, a `match`)"""
-    return table(F, None, inline, limit, keep, node=node)
+def table_expr(F, node, inline=True, limit=4096, keep=(), upto=None):
+    """decision table of one expression / block (a closure body, the condition of an `if`, a `match`); with `upto` (a node
+    inside `node`, only with inline=False): the value of that inner node, evaluated in the context of what precedes it"""
+    return table(F, None, inline, limit, keep, node=node, upto=upto)
 
 
-def table(F, fn, inline=True, limit=4096, keep=(), node=None):
+def table(F, fn, inline=True, limit=4096, keep=(), node=None, upto=None):
     """[(assignment dict, result)] or (None, reason)"""
     try:
-        E = Eval(F, fn, inline, keep=keep, node=node)
+        E = Eval(F, fn, inline, keep=keep, node=node, upto=upto)
     except Exception as e:  # pragma: no cover
         return None, "cannot prepare: %r" % (e,)
     rows = []
